@@ -18,7 +18,7 @@
   `ComposeStatement` and `DeserDefaultHistoryStatement`, which the code before f017e49 violated (kernel-checked
   counterexamples then), are now theorems; the former counterexample inputs are kept as `fixed_*` examples.
 -/
-import TypedpyModel.Lemmas.Convert
+import TypedpyModel.Lemmas.ConvertStep
 namespace Typedpy.C17
 open Typedpy.Convert
 
@@ -219,6 +219,102 @@ theorem convert_constant_set (k : String) (v : Json) (m : Mapping) (kvs : Obj) (
   refine ⟨_, rfl, ?_⟩
   rw [loop3_const _ _ huc, loop2_const _ _ huc]
   exact loop1_const _ kvs kvs o1 huc h1 (Or.inl hc)
+
+/-! ### the documented single-step contract (docs/versioning.rst) — every clause, proved
+
+  `stepViolations m before after` (Spec/ConvertSpec.lean) lists the clauses of the documented contract of one mapping
+  application that a pair of documents violates: deleted, constant, move (dotted paths, the rename idiom), function
+  (arguments as the entries written before left them), nested `._mapper` (a sub-document, every sub-document of a
+  list; `None` / absent stay), frame.  The driver evaluates it on what the real code returned.  Here: the model of
+  `_convert` satisfies ALL of it, for every mapping that is a Python dict (`wfMapping`: a key occurs once per nesting
+  level), whatever user functions its `FunctionCall` entries carry, and every JSON value. -/
+
+/-- **step_contract_holds**: `_convert` satisfies every clause of the documented contract -/
+theorem step_contract_holds (m : Mapping) (hwf : wfMapping m = true) (before after : Json)
+    (h : convert m before = .ok after) : stepViolations m before after = [] :=
+  c17_step_contract m hwf before after h
+
+/-- one iteration of `convert_dict` (`_convert`, then `version` is set by the caller) satisfies the contract -/
+theorem step_contract_top_holds (m : Mapping) (hwf : wfMapping m = true) (b : Obj) (d' d'' : Json) (v : Int)
+    (h : convert m (.obj b) = .ok d') (hs : setVersion v d' = .ok d'') : stepViolationsTop m (.obj b) d'' = [] :=
+  c17_step_contract_top m hwf b d' d'' v h hs
+
+/-- **convert_steps_contract**: the conversions with the prefixes `ms[:k]` and `ms[:k+1]` (what the driver's
+    `modelSteps` / `implSteps` look at) are one contract-satisfying application of `ms[k]` apart — so
+    `convert_dict` from version `v` to the latest is the fold of documented single steps `v, v+1, …, len` -/
+theorem convert_steps_contract (ms : List Mapping) (hwf : ∀ m, m ∈ ms → wfMapping m = true) (d b a : Json) (v : Int)
+    (k : Nat) (m : Mapping) (hv : effectiveVersion d = some v) (h1 : 1 ≤ v) (hk : v ≤ (k : Int) + 1)
+    (hm : ms[k]? = some m) (hb : convertDict d (ms.take k) = .ok b) (ha : convertDict d (ms.take (k + 1)) = .ok a) :
+    stepViolationsTop m b a = [] := by
+  have hklt : k < ms.length := by
+    rcases List.getElem?_eq_some_iff.mp hm with ⟨hlt, _⟩
+    exact hlt
+  rw [convertDict_drop _ hv h1] at hb ha
+  have hvb := runSteps_effVersion _ d b v hv hb
+  rw [List.take_add_one, hm, Option.toList_some,
+    List.drop_append_of_le_length (by rw [List.length_take]; omega), runSteps_append, hb, bindE_ok] at ha
+  simp only [runSteps] at ha
+  rcases bindE_eq_ok ha with ⟨d', hc, h2⟩
+  rcases bindE_eq_ok h2 with ⟨d'', hs, h3⟩
+  cases h3
+  rcases effectiveVersion_obj hvb with ⟨kvs, rfl, _⟩
+  exact c17_step_contract_top m (hwf m (List.mem_of_getElem? hm)) kvs d' a _ hc hs
+
+/-- the contract is not vacuous: on a mapping with a rename, a Constant, a FunctionCall and a nested `._mapper` over a
+    list the model's result passes, and tampering with any one of the moved key, the deleted key, the constant, the
+    function result, a nested sub-document or an unmentioned key is reported -/
+def exStepMapping : Mapping :=
+  [("n", .move ["o", "i"]), ("o", .deleted), ("c", .const (.int 7)), ("f", .fn (applyFn .addOne) ["x"]),
+   ("s", .sub [("t", .const (.str "q"))])]
+
+def exStepBefore : Json :=
+  .obj [("o", .obj [("i", .float 5 2)]), ("x", .int 4), ("s", .list [.obj [("u", .int 0)]]), ("z", .int 5)]
+
+def exStepAfter (n c f t z : Json) (o : List (String × Json)) : Json :=
+  .obj (o ++ [("x", .int 4), ("s", .list [.obj [("u", .int 0), ("t", t)]]), ("z", z), ("c", c), ("f", f), ("n", n)])
+
+theorem step_contract_sensitive_example :
+    wfMapping exStepMapping = true
+    ∧ sameResult (convert exStepMapping exStepBefore)
+        (.ok (exStepAfter (.float 5 2) (.int 7) (.int 5) (.str "q") (.int 5) [])) = true
+    ∧ (stepViolations exStepMapping exStepBefore (exStepAfter (.float 5 2) (.int 7) (.int 5) (.str "q") (.int 5) [])).length = 0
+    ∧ (stepViolations exStepMapping exStepBefore (exStepAfter (.int 5) (.int 7) (.int 5) (.str "q") (.int 5) [])).length = 1
+    ∧ (stepViolations exStepMapping exStepBefore (exStepAfter (.float 5 2) (.int 8) (.int 5) (.str "q") (.int 5) [])).length = 1
+    ∧ (stepViolations exStepMapping exStepBefore (exStepAfter (.float 5 2) (.int 7) (.int 4) (.str "q") (.int 5) [])).length = 1
+    ∧ (stepViolations exStepMapping exStepBefore (exStepAfter (.float 5 2) (.int 7) (.int 5) (.str "r") (.int 5) [])).length = 1
+    ∧ (stepViolations exStepMapping exStepBefore (exStepAfter (.float 5 2) (.int 7) (.int 5) (.str "q") (.int 6) [])).length = 2
+    ∧ (stepViolations exStepMapping exStepBefore
+        (exStepAfter (.float 5 2) (.int 7) (.int 5) (.str "q") (.int 5) [("o", .null)])).length = 1 := by
+  decide
+
+/-! ### start versions below 1: the documentation ("The version is expected to start with 1", field `version:
+    PositiveInt`) leaves no room for them, yet `convert_dict` slices the history with a negative index -/
+
+/-- full-strength statement: a document whose `version` is an integer below 1 is not converted (it is rejected) -/
+def NonPositiveRejectedStatement : Prop :=
+  ∀ (ms : List Mapping) (d : Json) (v : Int), docVersion d = some v → v < 1 → ∃ e, convertDict d ms = .error e
+
+/-- finding `invalid-version-accepted:convert_dict-nonpositive-start-version`:
+    `convert_dict({"version": 0}, [{"a": Constant(1)}, {"b": Constant(2)}])` applies the LAST mapping only
+    (`versions_mapping[-1:]`) and answers `{"version": 1, "b": 2}` — a document labelled version 1 -/
+theorem nonpositive_version_accepted_example :
+    sameResult (convertDict (.obj [("version", .int 0)]) [[("a", .const (.int 1))], [("b", .const (.int 2))]])
+      (.ok (.obj [("version", .int 1), ("b", .int 2)])) = true := by
+  decide
+
+theorem nonpositive_rejected_refuted : ¬ NonPositiveRejectedStatement := by
+  intro h
+  rcases h [[("a", .const (.int 1))], [("b", .const (.int 2))]] (.obj [("version", .int 0)]) 0 rfl (by decide)
+    with ⟨e, he⟩
+  have := sameResult_sound nonpositive_version_accepted_example
+  rw [he] at this
+  cases this
+
+/-- what the code does there, exactly: Python slice semantics on the history, the counter started at `v` -/
+theorem convert_nonpositive_characterised (ms : List Mapping) (kvs : Obj) (v : Int)
+    (hv : get "version" kvs = some (.int v)) :
+    convertDict (.obj kvs) ms = runSteps (pySliceFrom (v - 1) ms) v (.obj kvs) := by
+  simp [convertDict, startVersion, hv, versionInt]
 
 /-! ### `Versioned` deserialization and construction -/
 
